@@ -85,6 +85,8 @@ def step (m : Migration) : Stmt → M Migration
     let m ← m.removeIndex t name
     pure (m.using_ t)
   | .commentOn _ _ _ => .error "PARSE: COMMENT ON COLUMN is not MySQL"
+  -- the Postgres spellings of MODIFY COLUMN are outside the MySQL vocabulary of the model (never generated for it)
+  | .alterType .. | .setDefault .. | .dropNotNull .. => .error "PARSE: ALTER COLUMN TYPE / SET DEFAULT / DROP NOT NULL is not in the MySQL vocabulary"
 
 def run (m : Migration) : List Stmt → M Migration
   | [] => pure m
